@@ -635,3 +635,35 @@ def alias_path(fn, node):
         if q and "->" in q:
             return q
     return p
+
+
+def linform(e):
+    """Linear form {leaf path: coefficient, 1: constant} of a C integer expression built from + - and multiplication by
+    literals over access paths; None if it is not of that form."""
+    s = e.strip(casts=True)
+    if s.kind == "IntegerLiteral":
+        return {1: s.intval()}
+    if s.kind == "UnaryOperator" and s.opcode == "-":
+        a = linform(s.children[0])
+        return None if a is None else {k: -v for k, v in a.items()}
+    if s.kind == "BinaryOperator" and s.opcode in ("+", "-"):
+        a, b = linform(s.children[0]), linform(s.children[1])
+        if a is None or b is None:
+            return None
+        out = dict(a)
+        for k, v in b.items():
+            out[k] = out.get(k, 0) + (v if s.opcode == "+" else -v)
+        return {k: v for k, v in out.items() if v != 0}
+    if s.kind == "BinaryOperator" and s.opcode == "*":
+        a, b = linform(s.children[0]), linform(s.children[1])
+        if a is None or b is None:
+            return None
+        if set(a) <= {1}:
+            return {k: v * a.get(1, 0) for k, v in b.items() if v * a.get(1, 0) != 0}
+        if set(b) <= {1}:
+            return {k: v * b.get(1, 0) for k, v in a.items() if v * b.get(1, 0) != 0}
+        return None
+    p = s.path()
+    if p is not None:
+        return {p: 1}
+    return None
